@@ -72,15 +72,15 @@ func getEnv() (*c01Env, error) {
 	envOnce.Do(func() {
 		e := &c01Env{ca: NewCA("verif harness CA"), proxies: map[string]*ProxyInst{}}
 		var err error
-		if e.origin, err = StartPeer("origin", "127.0.0.2", nil, HTTPHandler(originResponder, nil)); err != nil {
+		if e.origin, err = StartPeer("origin", "127.0.0.2", nil, HTTPHandler(scriptedResponder, nil)); err != nil {
 			envErr = err
 			return
 		}
-		if e.torigin, err = StartPeer("tls-origin", "127.0.0.3", e.ca.ServerTLS("127.0.0.3", "origin.test"), HTTPHandler(originResponder, nil)); err != nil {
+		if e.torigin, err = StartPeer("tls-origin", "127.0.0.3", e.ca.ServerTLS("127.0.0.3", "origin.test"), HTTPHandler(scriptedResponder, nil)); err != nil {
 			envErr = err
 			return
 		}
-		if e.upstream, err = StartPeer("upstream", "127.0.0.4", nil, HTTPHandler(originResponder, TunnelTo(nil))); err != nil {
+		if e.upstream, err = StartPeer("upstream", "127.0.0.4", nil, HTTPHandler(scriptedResponder, TunnelTo(nil))); err != nil {
 			envErr = err
 			return
 		}
